@@ -22,19 +22,21 @@ THEOREM_FILES = ["Props/C14.v"]
 COQ_IMPORTS = ("From Coq Require Import List ZArith Bool QArith Qcanon.\n"
                "From PV Require Import Base.Index Np.Array Model.Sparse Model.Repr Model.Harness Model.C10Tucker Model.C10Check "
                "Model.C14Nvecs Model.C14Check.\n")
-RULE = ("integer tensors (Tucker-structured low rank with integer core/factors, and unstructured) with mode sizes 1..5, each held "
-        "dense/sparse/Kruskal/Tucker; all modes n, all 1 <= r <= size (iterative path r < size-1 and dense path), flipsign on/off; "
+RULE = ("integer tensors (Tucker-structured low rank with integer core/factors, and unstructured) with mode sizes 1..5, 2- to 4-way, each held "
+        "dense/sparse/Kruskal/Tucker (dense core and sparse core with dense factors); sequences of nvecs calls over all modes on one "
+        "object (Kruskal with non-unit weights); all modes n, all 1 <= r <= size (iterative path r < size-1 and dense path), flipsign on/off; "
         "agreement across representations only where the eigen-gap at r is > 1e-3 relative; non-trivial = mode size >= 2; "
         "distinct = distinct (op,args)")
-CORRESPONDENCE_ONLY = ["sparse Gram (sptensor reshape + spmatrix product) and Tucker Gram (through the core): recorded solver input = "
-                       "gram_spec of the denotation, on samples",
-                       "to_tenmat unfolding used by the dense Gram: modelled as tabulated unfolding (C01/C07 own the general theorem)",
+CORRESPONDENCE_ONLY = ["scipy.sparse product inside sptensor.nvecs (modelled as the coordinate-level COO product) and the sparse-core branch of "
+                       "ttensor.nvecs (to_sptenmat unfoldings): recorded solver input = gram_spec of the denotation, on samples",
+                       "to_tenmat unfoldings used by the dense / Tucker Gram: modelled as tabulated unfoldings (C01/C07 own the general theorem)",
                        "eigen solvers eigh/eigsh/eig/eigs: certificate-checked oracles"]
 ASSUMPTIONS = ["floats converted exactly (solver output) or on the 2^-40 grid (returned vectors) to rationals",
                "degenerate leading spectra are excluded from the cross-representation agreement (quantifier of the property)",
                "theorems: ring-generic (closed) for the Gram identities; stdlib Reals for the post-processing order/sign theorems"]
-EXPLANATION = ("C14_gram_dense / C14_gram_kruskal: the Gram matrix the code forms equals gram_spec of the denotation (any ring, shape, "
-               "mode); C14_postprocess_*: argsort(-|w|) selection and sign rule for any solver output; correspondence: recorded "
+EXPLANATION = ("C14_gram_dense / _sparse / _kruskal / _tucker: the Gram matrix the code forms equals gram_spec of the denotation (any ring, "
+               "shape, mode) — the four executable code models are evaluated on every sampled input against the recorded solver input; "
+               "op seq calls nvecs for every mode on ONE object and checks each result against the original denotation; C14_postprocess_*: argsort(-|w|) selection and sign rule for any solver output; correspondence: recorded "
                "solver input/output tie the model to the code, the result is certificate-checked in Qc.")
 
 
@@ -267,6 +269,12 @@ def _e_gram(a, o, rp):
         e += f" && mat_eqb (gram_dense_code {tgen.gdense(a['shape'], a['data'])} {a['n']}) {gzmat(o['Y'])}"
     if rp == "ktensor":
         e += f" && mat_eqb (gram_k_code {tgen.gktensor(a['kw'], a['kf'])} {a['n']}) {gzmat(o['Y'])}"
+    if rp == "sparse":          # the COO-product model of C14_gram_sparse on the stored subscripts/values as given
+        import random
+        subs, vals = tgen.dense_to_sparse(a["shape"], a["data"], random.Random(a["sseed"]), a["order"])
+        e += f" && mat_eqb (gram_sp_code {tgen.gsparse(a['shape'], subs, vals)} {a['n']}) {gzmat(o['Y'])}"
+    if rp in ("ttensor", "ttensor_sp"):      # the through-the-core model of C14_gram_tucker
+        e += f" && mat_eqb (gram_t_code {tgen.gttensor(a['tcs'], a['tcore'], a['tf'])} {a['n']}) {gzmat(o['Y'])}"
     return e
 
 
